@@ -33,6 +33,7 @@ READ_KINDS = ('open', 'os.open', 'stat', 'lstat', 'fstat', 'scandir', 'scandir.n
 WRITE_KINDS = ('open.w', 'write', 'unlink', 'truncate')
 READ_ERRNOS = ['EACCES', 'EIO', 'ENOMEM', 'ELOOP', 'ENOTDIR', 'EMFILE', 'ESTALE', 'EPERM']
 WRITE_ERRNOS = ['ENOSPC', 'EDQUOT', 'EROFS', 'EIO', 'EACCES']
+MAX_PLANS = 400
 
 
 def generate(rng, tier, idx):
@@ -86,6 +87,11 @@ def execute(sc):
             for j in range(sc.get('per_site', 1)):
                 en = pool[(pick + i * 7 + j * 3) % len(pool)]
                 plans.append({'kinds': [s[0]], 'path': s[1], 'nth': s[2], 'errno': en})
+    if sc.get('only') is None and len(plans) > MAX_PLANS:
+        # very long histories: every k-th site instead of all (keeps one world from taking minutes under load)
+        c['fault_sites_strided'] = len(plans)
+        step = -(-len(plans) // MAX_PLANS)
+        plans = plans[::step]
     for plan in plans:
         hf = run_history(copy.deepcopy(sc), want_idempotence=False, faults=[plan], audits=False)
         sm = hf['seams'][0]
@@ -117,5 +123,5 @@ def post_batch(ev, agg, tier):
     c['faulted_executions'] = c['counters'].get('faulted_runs', 0)
     c['fault_free_histories'] = c['evaluations']
     c['evaluations'] = c['evaluations'] + c['counters'].get('faulted_runs', 0)
-    c['exhaustive_note'] = 'fault placement is exhaustive over the recorded trace of each enumerated history (read and write side); histories and errnos are sampled'
+    c['exhaustive_note'] = 'fault placement is exhaustive over the recorded trace of each enumerated history (read and write side) up to 400 sites per history, every k-th site beyond that; histories and errnos are sampled'
     return None
